@@ -470,14 +470,23 @@ def atof32 {F D : Type} [FloatLike F] [FloatLike D] (cvt : D → F) (s : List Na
 
 /-! ## debug_printdec_double_prec -/
 
-/-- `debug_printdec_uint64`: canonical decimal digits (C07 proves this of the
-    transcription of the routine) -/
-def decText (n : Nat) : List Nat := (Nat.toDigits 10 n).map Char.toNat
+/-- `for (; x != 0; x /= 10) *--ptr = (x % 10) + '0';` — the digits, least significant first -/
+def natDigitsRev : Nat → Nat → List Nat
+  | 0, _ => []
+  | fuel + 1, n => if n = 0 then [] else (48 + n % 10) :: natDigitsRev fuel (n / 10)
+
+/-- `debug_printdec_uint64(x)`: a '0' for zero, then the digits that were stored
+    backwards into the 24-byte buffer, printed forwards (a `uint64_t` has at most
+    20 of them) -/
+def decText (n : Nat) : List Nat := if n = 0 then [48] else (natDigitsRev 20 n).reverse
 
 /-- `for (lim /= 10; lim > frac && lim > 1; lim /= 10) putchar('0')` -/
 def zeroPad : Nat → Nat → Nat → List Nat
   | 0, _, _ => []
   | fuel + 1, lim, frac => if lim > frac ∧ lim > 1 then 48 :: zeroPad fuel (lim / 10) frac else []
+
+/-- `for (i = 0; i < prec; ++i) { o *= 10; lim *= 10; }` (the `o` part) -/
+def scaleUp {D : Type} [FloatLike D] (n : Nat) (o : D) : D := iter (fun o => mul o (ofInt 10)) n o
 
 def dprintDouble {D : Type} [FloatLike D] (a : D) (prec : Int) : Option (List Nat) :=
   if isNaN a then some tokNan
@@ -493,7 +502,7 @@ def dprintDouble {D : Type} [FloatLike D] (a : D) (prec : Int) : Option (List Na
       if n < 0 ∨ 2 ^ 64 ≤ n then none
       else
         let o := sub a (ofInt n)
-        let o := iter (fun o => mul o (ofInt 10)) prec o
+        let o := scaleUp prec o
         let lim := 10 ^ prec
         match trunc (add o (lit 5 1)) with
         | none => none
